@@ -5,11 +5,32 @@ import sys
 import time
 
 
+def die(kind):
+    """the ways a task can fail other than raising an Exception"""
+    if kind == "exit":
+        os._exit(3)
+    if kind == "exit-locked":
+        # killed inside core.update_progress(), i.e. while holding the shared progress counter's lock
+        from bio2zarr import core
+
+        if core._progress_counter is not None:
+            core._progress_counter.get_lock().acquire()
+        os._exit(3)
+    if kind == "sigterm":
+        # terminated from outside (scheduler, watchdog, `kill <pid>`) while inside the task
+        import signal
+
+        os.kill(os.getpid(), signal.SIGTERM)
+        time.sleep(30)
+        os._exit(3)
+    if kind == "sysexit":
+        raise SystemExit(0)
+
+
 def task(i, kind, fail, delay):
     time.sleep(delay)
     if i in fail:
-        if kind[i % len(kind)] == "exit":
-            os._exit(3)
+        die(kind[i % len(kind)])
         raise ValueError(f"boom {i}")
     return i
 
@@ -27,6 +48,8 @@ def run_scenario(sc):
         res = "success"
     except RuntimeError:
         res = "RuntimeError"
+    except SystemExit as e:
+        res = f"SystemExit({e.code})"
     except ValueError:
         res = "ValueError"
     except Exception as e:  # noqa: BLE001
